@@ -65,7 +65,7 @@ chk("C03",E2,"model_checking",
   "exhaustive injection enumeration over protocol stages with a differential (injection-free) oracle","DESIGN.md 4.3")
 
 chk("C06","E5-loopback","exploration",
-  "Full product USERNAME {none, wrong, right} x MESSAGE-INTEGRITY {absent, random, remote-pwd, third-key, bit-flipped, correct} x FINGERPRINT x USE-CANDIDATE x role attribute x source {known, stranger} x ICE state (5) x agent role on a real loopback IceTransport (fresh per case), all 160 single-bit flips of a correct HMAC, and 52 unsolicited responses with random / stale / live transaction ids; oracle = snapshot difference of remote candidates, selected pair, state and nomination watch.",
+  "Full product USERNAME {none, wrong local ufrag, right; after a restart also the previous generation's remote ufrag} x MESSAGE-INTEGRITY {absent, random, remote-pwd, third-key, bit-flipped, correct} x FINGERPRINT x USE-CANDIDATE x role attribute x source {known, stranger} x ICE state (5, plus checking-after-a-remote-ICE-restart) x agent role on a real loopback IceTransport (fresh per case), all 160 single-bit flips of a correct HMAC, and 52 unsolicited responses with random / stale / live transaction ids; oracle = snapshot difference of remote candidates, selected pair, state and nomination watch.",
   "Real UDP loopback and wall-clock timers; quiescence by an ordering barrier (authenticated no-op answered by the agent's sequential read loop); every violating signature is re-run alone three times before it is reported. Shared-UDP mux, TCP and TURN socket kinds are not reached.",
   "exhaustive enumeration of the STUN credential x ICE-state lattice on a real IceTransport with a snapshot-difference oracle","DESIGN.md 4.6")
 chk("C09","E3-hist","model_checking",
@@ -73,7 +73,7 @@ chk("C09","E3-hist","model_checking",
   "Trusted: the canonical-state abstraction (cross-checked on all merged pairs up to d1); single-audio-section SDPs; the mid counter is not observable through the public API.",
   "explicit-state search by history replay on real objects with a reference state machine and an atomicity oracle","DESIGN.md 4.9")
 chk("C14","E3-hist","model_checking",
-  "All operation sequences to depth 5 (quick) / 6 (thorough) over a 15-op alphabet (install keys, send_rtp, raw send, send_rtcp, sync BYE, receive clear / protected / wrong-key RTP and RTCP, bridge to keyed / unkeyed target, clear bridge, close) on a real SRTP-mandatory RtpTransport with two bridge targets on in-memory sockets, for 2-3 profiles; every captured datagram must authenticate under webrtc-srtp with the emitter's keys, nothing may be emitted before keys exist, nothing unauthenticated may reach listeners / observers / the bridged peer. PeerConnection-level part: a real-loopback lattice mode {Srtp, WebRtc} x offerer x 4 remote-description variants (well-formed, missing / mismatching / short keys, DTLS never completing) x 3 injection phases x cleartext RTP / RTCP x close / drop (192-216 points), thrice-confirmed.",
+  "All operation sequences to depth 5 (quick) / 6 (thorough) over a 15-op alphabet (install keys, send_rtp, raw send, send_rtcp, sync BYE, receive clear / protected / unauthenticated RTP and RTCP (one datagram under unrelated keys and one under the right keys with its tag altered), bridge to keyed / unkeyed target, clear bridge, close) on a real SRTP-mandatory RtpTransport with two bridge targets on in-memory sockets, for 2-3 profiles; every captured datagram must authenticate under webrtc-srtp with the emitter's keys, nothing may be emitted before keys exist, nothing unauthenticated may reach listeners / observers / the bridged peer. PeerConnection-level part: a real-loopback lattice mode {Srtp, WebRtc} x offerer x 4 remote-description variants (well-formed, missing / mismatching / short keys, DTLS never completing) x 3 injection phases x cleartext RTP / RTCP x close / drop (192-216 points), thrice-confirmed.",
   "Trusted: webrtc-srtp 0.17 as reference (its AES-CM SRTCP path needs the E bit checked first, see evidence assumptions). Operation-granularity interleavings only.",
   "explicit-state history enumeration on real transports judged against an independent SRTP implementation","DESIGN.md 4.14")
 
